@@ -42,4 +42,124 @@ pub mod harnesses {
       _ => { kani::cover!(true, "reachable"); },
     }
   }
+
+  // ------------------------------------------------------------------ C19: cartridge header
+  use crate::cart::Header;
+  fn any_header() -> (Header, [u8; 80]) {
+    let bytes: [u8; 80] = kani::any();
+    // Header is repr(C, packed), 80 bytes, all fields plain bytes: every bit pattern is a valid value
+    (unsafe { core::mem::transmute::<[u8; 80], Header>(bytes) }, bytes)
+  }
+  /// checksum of header bytes 0x134-0x14C (offsets 0x34..0x4d of the 80-byte header read at 0x100)
+  fn spec_checksum(b: &[u8; 80]) -> u8 {
+    let mut x: u8 = 0; let mut i = 0x34;
+    while i <= 0x4c { x = x.wrapping_sub(b[i]).wrapping_sub(1); i += 1; }
+    x
+  }
+  #[kani::proof] #[kani::unwind(27)]
+  fn header_checksum() {
+    let (h, b) = any_header();
+    assert!(core::mem::size_of::<Header>() == 80, "C19: header layout is 80 bytes");
+    assert!(h.valid_checksum() == (spec_checksum(&b) == b[0x4d]), "C19: accepted iff checksum of 0x134-0x14C equals byte 0x14D");
+    kani::cover!(h.valid_checksum(), "reachable: some header is accepted");
+  }
+  fn spec_rom_banks(code: u8) -> usize {
+    match code { 0 => 2, 1 => 4, 2 => 8, 3 => 16, 4 => 32, 5 => 64, 6 => 128, 7 => 256, 8 => 512, 0x52 => 72, 0x53 => 80, 0x54 => 96, _ => 2 }
+  }
+  fn spec_ram_bytes(code: u8) -> usize {
+    match code { 0 => 0, 1 => 2048, 2 => 8192, 3 => 32768, 4 => 131072, 5 => 65536, _ => 0 }
+  }
+  #[kani::proof]
+  fn header_size_tables() {
+    let (h, b) = any_header();
+    let sel: u8 = kani::any();
+    match sel {
+      0 => assert!(h.get_rom_bank_count() == spec_rom_banks(b[0x48]), "C19: ROM bank count from the header table"),
+      1 => assert!(h.get_rom_size_bytes() == spec_rom_banks(b[0x48]) * 0x4000, "C19: ROM size = banks x 16 KiB"),
+      2 => assert!(h.get_ram_size_bytes() == spec_ram_bytes(b[0x49]), "C19: RAM size from the header table"),
+      3 => assert!(h.get_rom_size_bytes() >= 0x8000 && h.get_rom_size_bytes() % 0x4000 == 0 && h.get_rom_size_bytes() <= 0x80_0000 && h.get_ram_size_bytes() <= 0x20000,
+                   "C11: every declarable size satisfies the bus invariant mem_wf"),
+      _ => { kani::cover!(true, "reachable"); },
+    }
+  }
+  #[kani::proof]
+  fn header_cart_type_supported() {
+    let (h, b) = any_header();
+    let t = b[0x47];
+    kani::assume(t == 0 || t == 1 || t == 2 || t == 3 || t == 0x11 || t == 0x12 || t == 0x13);
+    let cs = h.create_cart_state();     // must return (no panic) for every supported type
+    let rom_bank = cs.get_rom_bank(); let ram_bank = cs.get_ram_bank();
+    assert!(rom_bank == 1 && ram_bank == 0, "C19: a fresh controller maps ROM bank 1 / RAM bank 0");
+    kani::cover!(true, "reachable");
+  }
+  #[kani::proof] #[kani::should_panic]
+  fn header_cart_type_unsupported() {
+    let (h, b) = any_header();
+    let t = b[0x47];
+    kani::assume(!(t == 0 || t == 1 || t == 2 || t == 3 || t == 0x11 || t == 0x12 || t == 0x13));
+    let _ = h.create_cart_state();      // controlled termination: the only outcome is the "Unsupported cart type" panic
+  }
+
+  // ------------------------------------------------------------------ C15: tile::interleave
+  #[kani::proof] #[kani::unwind(9)]
+  fn leaf_interleave() {
+    let lo: u8 = kani::any(); let hi: u8 = kani::any();
+    let r = crate::devices::video::tile::interleave(lo, hi);
+    // pixel k (0 = leftmost = bit 7) has colour ((hi bit) << 1) | (lo bit), stored at bits 15-2k, 14-2k
+    let mut k = 0;
+    while k < 8 {
+      let hb = ((hi >> (7 - k)) & 1) as u16; let lb = ((lo >> (7 - k)) & 1) as u16;
+      assert!((r >> (14 - 2 * k)) & 3 == (hb << 1) | lb, "C15: interleave places pixel k's two colour bits at bits 15-2k..14-2k");
+      k += 1;
+    }
+  }
+
+  // ------------------------------------------------------------------ C20: debugger strings (BOUNDED by input length)
+  fn spec_hex(b: &[u8]) -> Option<u16> {
+    if b.len() == 0 { return None; }
+    let mut v: u32 = 0; let mut i = 0;
+    while i < b.len() {
+      let c = b[i];
+      let d = if c >= b'0' && c <= b'9' { c - b'0' } else if c >= b'a' && c <= b'f' { c - b'a' + 10 } else if c >= b'A' && c <= b'F' { c - b'A' + 10 } else { return None; };
+      v = v * 16 + d as u32; if v > 0xffff { return None; }
+      i += 1;
+    }
+    Some(v as u16)
+  }
+  fn spec_dec(b: &[u8]) -> Option<u16> {
+    if b.len() == 0 { return None; }
+    let mut v: u32 = 0; let mut i = 0;
+    while i < b.len() {
+      let c = b[i];
+      if !(c >= b'0' && c <= b'9') { return None; }
+      v = v * 10 + (c - b'0') as u32; if v > 0xffff { return None; }
+      i += 1;
+    }
+    Some(v as u16)
+  }
+  const NHEX: usize = 6;
+  #[kani::proof] #[kani::unwind(9)]
+  fn strs_parse_address_hex() {
+    let bytes: [u8; NHEX] = kani::any();
+    let len: usize = kani::any();
+    kani::assume(len >= 2 && len <= NHEX);
+    kani::assume(bytes[0] == b'0' && bytes[1] == b'x');
+    // printable ASCII without whitespace; a leading '+' is accepted by from_str_radix and not covered by the property
+    let mut k = 2; while k < NHEX { kani::assume(bytes[k] < 0x80 && bytes[k] > b' ' && bytes[k] != b'+'); k += 1; }
+    let s = match core::str::from_utf8(&bytes[..len]) { Ok(s) => s, Err(_) => return };
+    let r = crate::debug::command::parse_address(s);
+    assert!(r == spec_hex(&bytes[2..len]), "C20: 0x-prefixed hexadecimal parses to exactly its value, malformed / out of range rejected");
+  }
+  const NDEC: usize = 6;
+  #[kani::proof] #[kani::unwind(9)]
+  fn strs_parse_address_dec() {
+    let bytes: [u8; NDEC] = kani::any();
+    let len: usize = kani::any();
+    kani::assume(len >= 1 && len <= NDEC);
+    let mut k = 0; while k < NDEC { kani::assume(bytes[k] < 0x80 && bytes[k] > b' ' && bytes[k] != b'+'); k += 1; }
+    kani::assume(!(len >= 2 && bytes[0] == b'0' && bytes[1] == b'x'));
+    let s = match core::str::from_utf8(&bytes[..len]) { Ok(s) => s, Err(_) => return };
+    let r = crate::debug::command::parse_address(s);
+    assert!(r == spec_dec(&bytes[..len]), "C20: decimal parses to exactly its value, malformed / out of range rejected");
+  }
 }
